@@ -15,6 +15,7 @@ import (
 	"os"
 	"sync/atomic"
 	"testing"
+	"time"
 
 	"github.com/couchbase/sync_gateway/auth"
 	"github.com/couchbase/sync_gateway/base"
@@ -49,34 +50,37 @@ type restWorld struct {
 }
 
 type restNodeOpts struct {
-	DBName         string `json:"db_name"`
-	SyncFn         string `json:"sync_fn,omitempty"`
-	AllowConflicts bool   `json:"allow_conflicts,omitempty"`
-	SGReplicate    bool   `json:"sg_replicate,omitempty"`
-	RevCacheSize   int    `json:"rev_cache_size"` // -1 default
-	DeltaSync      bool   `json:"delta_sync,omitempty"`
-	FeedWorkers    int    `json:"feed_workers,omitempty"`
-	NumVB          int    `json:"num_vb,omitempty"`
-	PendingMaxMs   int    `json:"pending_max_ms,omitempty"` // how long the changes cache waits for a missing sequence
-	LegacyRepl     bool   `json:"legacy_repl,omitempty"`    // this node's replications speak the revision-tree protocol only
+	DBName             string `json:"db_name"`
+	SyncFn             string `json:"sync_fn,omitempty"`
+	AllowConflicts     bool   `json:"allow_conflicts,omitempty"`
+	SGReplicate        bool   `json:"sg_replicate,omitempty"`
+	RevCacheSize       int    `json:"rev_cache_size"` // -1 default
+	DeltaSync          bool   `json:"delta_sync,omitempty"`
+	FeedWorkers        int    `json:"feed_workers,omitempty"`
+	NumVB              int    `json:"num_vb,omitempty"`
+	PendingMaxMs       int    `json:"pending_max_ms,omitempty"` // how long the changes cache waits for a missing sequence
+	LegacyRepl         bool   `json:"legacy_repl,omitempty"`    // this node's replications speak the revision-tree protocol only
+	AllowEmptyPassword bool   `json:"allow_empty_password,omitempty"`
+	CheckpointMs       int    `json:"checkpoint_ms,omitempty"` // time-based checkpoint interval of this node's replications (0 default)
 }
 
 type restNode struct {
-	w       *restWorld
-	name    string
-	addr    string
-	opts    restNodeOpts
-	node    *simstore.Node
-	raw     *rosmar.Bucket
-	bucket  base.Bucket
-	sc      *ServerContext
-	ln      *simnet.Listener
-	srv     *http.Server
-	admin   http.Handler
-	public  http.Handler
-	closed  bool
-	gen     int
-	bktName string
+	w            *restWorld
+	name         string
+	addr         string
+	opts         restNodeOpts
+	node         *simstore.Node
+	raw          *rosmar.Bucket
+	sharesBucket bool // the bucket belongs to another node of the world
+	bucket       base.Bucket
+	sc           *ServerContext
+	ln           *simnet.Listener
+	srv          *http.Server
+	admin        http.Handler
+	public       http.Handler
+	closed       bool
+	gen          int
+	bktName      string
 }
 
 func newRestWorld(env *verifsim.Env) *restWorld {
@@ -93,7 +97,7 @@ func newRestWorld(env *verifsim.Env) *restWorld {
 func (w *restWorld) close() {
 	for _, n := range w.nodes {
 		_ = n.stop()
-		if n.raw != nil {
+		if n.raw != nil && !n.sharesBucket {
 			_ = n.raw.CloseAndDelete(context.Background())
 		}
 	}
@@ -102,9 +106,20 @@ func (w *restWorld) close() {
 
 // startNode creates a node on a fresh bucket, or restarts one on the bucket of prev.
 func (w *restWorld) startNode(name string, o restNodeOpts, prev *restNode) (*restNode, error) {
+	return w.startNodeShared(name, o, prev, nil)
+}
+
+// startNodeOnBucket starts a further node on the bucket of another (running) node.
+func (w *restWorld) startNodeOnBucket(name string, o restNodeOpts, other *restNode) (*restNode, error) {
+	return w.startNodeShared(name, o, nil, other)
+}
+
+func (w *restWorld) startNodeShared(name string, o restNodeOpts, prev, share *restNode) (*restNode, error) {
 	n := &restNode{w: w, name: name, opts: o, addr: name + ":4984"}
 	if prev != nil {
 		n.raw, n.bktName, n.gen, n.addr = prev.raw, prev.bktName, prev.gen+1, prev.addr
+	} else if share != nil {
+		n.raw, n.bktName, n.sharesBucket = share.raw, share.bktName, true
 	} else {
 		n.bktName = fmt.Sprintf("rb%d_%s", w.id, name)
 		raw, err := rosmar.OpenBucket(rosmar.InMemoryURL, n.bktName, rosmar.CreateNew)
@@ -164,12 +179,20 @@ func (w *restWorld) startNode(name string, o restNodeOpts, prev *restNode) (*res
 			}
 			dbc.CacheConfig.ChannelCacheConfig = &ChannelCacheConfig{MaxWaitPending: base.Ptr(uint32(o.PendingMaxMs))}
 		}
+		if o.AllowEmptyPassword {
+			dbc.AllowEmptyPassword = base.Ptr(true)
+		}
 		if o.DeltaSync {
 			dbc.DeltaSync = &DeltaSyncConfig{Enabled: base.Ptr(true)}
 		}
 		if _, err = server.AddDatabaseFromConfig(ctx, dbc); err != nil {
 			server.Close(ctx)
 			return
+		}
+		if o.CheckpointMs > 0 {
+			if d, derr := server.GetDatabase(ctx, o.DBName); derr == nil && d.SGReplicateMgr != nil {
+				d.SGReplicateMgr.CheckpointInterval = time.Duration(o.CheckpointMs) * time.Millisecond
+			}
 		}
 		if o.LegacyRepl {
 			if d, derr := server.GetDatabase(ctx, o.DBName); derr == nil && d.SGReplicateMgr != nil {
